@@ -502,7 +502,7 @@ func checkLinearizable(c c20Case, inputs [][]c20Input, events [][]c20Event) porc
 }
 
 func genC20(t *rapid.T) c20Case {
-	c := c20Case{Len: rapid.IntRange(8, 64).Draw(t, "len"), K: uint32(rapid.IntRange(1, 5).Draw(t, "k")),
+	c := c20Case{Len: rapid.SampledFrom([]int{8, 9, 10, 11, 13, 16, 23, 31, 32, 33, 47, 63, 64, 1, 2, 3, 5, 7}).Draw(t, "len"), K: uint32(rapid.IntRange(1, 5).Draw(t, "k")),
 		Tweak: rapid.Uint32().Draw(t, "tweak"), Flags: byte(rapid.IntRange(0, 2).Draw(t, "flags"))}
 	c.Txs = genC10(t)
 	if len(c.Txs.Txs) > 4 {
